@@ -34,9 +34,9 @@ var rules = []*Rule{
 	}},
 	{ID: "R22", Title: "SEGMENT-TYPESTATE: no use of a segment after its files were removed", Props: []string{"C12", "C01"}, Run: ruleR22},
 	{ID: "R23", Title: "MULTI-DRIVER ACCOUNTING: a round's deletions are reported", Props: []string{"C12"}, Run: ruleR23},
-	{ID: "R17", Title: "OFFSET-ASSIGNMENT", Props: []string{"C02", "C01"}, Run: func(p *Prog) []Ob { return append(ruleR17(p), p.tailSurvivedObligations()...) }},
+	{ID: "R17", Title: "OFFSET-ASSIGNMENT", Props: []string{"C02", "C01"}, Run: func(p *Prog) []Ob { return append(append(ruleR17(p), p.tailSurvivedObligations()...), p.rolloverFromNonEmpty()...) }},
 	{ID: "R5", Title: "INUSE: the unload refcount protocol", Props: []string{"C08"}, Run: ruleR5},
-	{ID: "R18", Title: "SNAPSHOT-REVALIDATION", Props: []string{"C08", "C12"}, Run: func(p *Prog) []Ob { return append(ruleR18(p), p.deleteSerialised()...) }},
+	{ID: "R18", Title: "SNAPSHOT-REVALIDATION", Props: []string{"C08", "C12", "C03"}, Run: func(p *Prog) []Ob { return append(append(ruleR18(p), p.deleteSerialised()...), p.staleReader()...) }},
 	{ID: "R20", Title: "READER-LIFETIME: destructive segment operations exclude readers", Props: []string{"C08", "C03", "C12"}, Run: func(p *Prog) []Ob { return append(ruleR20(p), p.closeBeforeReplace()...) }},
 	{ID: "R21", Title: "HEAD-SCAN-BOUND", Props: []string{"C08"}, Run: ruleR21},
 	{ID: "R9", Title: "FORMAT-TABLES: encoder = decoder = documented layout", Props: []string{"C13", "C17", "C11", "C09"}, Run: ruleR9},
@@ -53,6 +53,7 @@ var rules = []*Rule{
 	{ID: "R35", Title: "LOOKUP-OUTCOMES", Props: []string{"C04", "C09", "C10"}, Run: ruleR35},
 	{ID: "R36", Title: "BOUNDARY-HAND-OFF and INDEX-WRAPPERS", Props: []string{"C10", "C09", "C04", "C03", "C13"}, Run: func(p *Prog) []Ob { return append(append(ruleR36(p), p.indexWrappers()...), p.statFresh()...) }},
 	{ID: "R39", Title: "PARAMS-FROM-OPTIONS", Props: []string{"C13", "C11"}, Run: ruleR39},
+	{ID: "R40", Title: "ERROR-DISCIPLINE: no error is dropped outside the clean-up idioms", Props: []string{"C06", "C05", "C01", "C14"}, Run: ruleR40},
 	{ID: "R37", Title: "FINDER-SHAPE: cursor, selection, bound and key discipline of the trim/compaction finders", Props: []string{"C15", "C16"}, Run: ruleR37},
 	{ID: "R38", Title: "TRIM-PLUMBING: a wrapper deletes exactly what its finder selected", Props: []string{"C15", "C16", "C12"}, Run: ruleR38},
 	{ID: "R4", Title: "LOCK-ORDER: acyclic acquisition graph, no re-acquisition", Props: []string{"C08"}, Run: ruleR4},
